@@ -13,7 +13,7 @@ DEFAULTS = dict(
     p_eventless=0.25, p_internal=0.2, p_guard=0.6, min_trans=2, max_trans=14,
     p_send=0.25, p_state_send=0.08, p_notify=0.3, delays=(0, 0, 0, 0.125, 1, 1, 2, 5),
     contracts=False, p_contract=0.5, timed=False, timed_plain=0.0, mode=None, priorities=(-1, 0, 0, 0, 1, 2),
-    min_states=3, root_basic_ok=0.05,
+    min_states=3, root_basic_ok=0.05, allow_inner_history=False,
 )
 
 
@@ -99,10 +99,13 @@ def gen_chart(rnd, **kw):
         ch = _gen_structure(rnd, o)
         if ch is None:
             continue
+        ch['_allow_inner_history'] = bool(o['allow_inner_history'])
         _gen_transitions(rnd, ch, o)
         if o['contracts']:
             _gen_contracts(rnd, ch, o)
         problems = wellformed(ch)
+        if o['allow_inner_history']:
+            problems = [p for p in problems if not p.startswith('history entered from inside')]
         if problems:
             raise AssertionError('generator produced ill-formed chart: %s' % problems)
         ch['mode'] = mode
@@ -153,7 +156,7 @@ def _gen_structure(rnd, o):
                 h = new(rnd.choice(HKINDS), n)
                 budget[0] -= 1
                 st[h]['memory'] = rnd.choice(kids)
-                if rnd.random() < 0.15 and o['mode'] == 'history':
+                if rnd.random() < (0.3 if o['mode'] == 'history' else 0.08):
                     h2 = new(rnd.choice(HKINDS), n)     # two history states in one compound
                     st[h2]['memory'] = rnd.choice(kids)
         elif kind == 'orthogonal':
@@ -182,6 +185,7 @@ def _gen_structure(rnd, o):
 
 def _pick_target(rnd, ch, tr, s, order, bias=None):
     st = ch['states']
+    inner_ok = ch.get('_allow_inner_history')
     for _ in range(30):
         if bias:
             t = rnd.choice(bias)
@@ -189,7 +193,7 @@ def _pick_target(rnd, ch, tr, s, order, bias=None):
             t = rnd.choice(order)
         if tr.crosses_regions(s, t):
             continue
-        if st[t]['kind'] in HKINDS:
+        if st[t]['kind'] in HKINDS and not inner_ok:
             par = st[t]['parent']
             if s == par or s in tr.desc(par):
                 continue
